@@ -43,6 +43,10 @@ def main():
         if args.replay:
             with open(args.replay) as f:
                 body = json.load(f)
+            if isinstance(body.get("case"), dict) and "hang_stack" in body["case"]:
+                print(f"replay {args.replay}: recorded key={body['key']}\n  {body['what']}\n  (recorded by the last-resort "
+                      "watchdog: the case is the harness call site below; re-run the check to reproduce)\n  " + str(body["case"]))
+                return 1
             viols = mod.replay(ctx, common.unjson(body["case"]))
             print(f"replay {args.replay}: recorded key={body['key']}")
             for v in viols:
@@ -50,7 +54,37 @@ def main():
             if not viols:
                 print("  no violation reproduced on the current tree")
             return 1 if viols else 0
-        mod.run(ctx)
+        common.arm_watchdog()
+        hung = None
+        try:
+            mod.run(ctx)
+        except common.CallDidNotReturn as e:
+            hung = e
+        if hung is not None:
+            budget = common.WD_TICK * common.WD_HITS
+            ctx.report(
+                f"call-does-not-return:{hung.where}",
+                f"a call into the library ({hung.where}) was still running after {budget:.0f} s of CPU time inside that one "
+                f"call (every call of this check normally returns within milliseconds); library frames: {' > '.join(hung.stack[-6:])}; "
+                f"called from {hung.harness[:700]}. The exploration was abandoned at this point.",
+                {"hang_stack": hung.stack, "harness_call_site": hung.harness},
+            )
+            ctx.note("exploration abandoned: a library call did not return (see the violation); coverage figures are partial")
+            ctx.coverage.setdefault("states", 0)
+            ctx.coverage.setdefault("transitions", 0)
+            ctx.coverage["exhaustive"] = False
+            try:
+                ctx.write_evidence()
+            except Exception:  # noqa: BLE001 - partial coverage may not satisfy the evidence writer
+                pass
+            for key, h in sorted(ctx.known_hits.items()):
+                print(f"KNOWN-FINDING: property={args.pid} {key}: {h['what']} (hit {h['count']}x, e.g. {h['first'][:200]})")
+            reps = ctx.write_replays()
+            for key, v, path in reps:
+                print(f"VIOLATION property={args.pid} replay={path}")
+                print(f"  key={key} count={v['count']} :: {v['what'][:900]}")
+            sys.stdout.flush()
+            os._exit(1 if reps else 0)  # threads of the abandoned execution may still be spinning
     except common.HarnessError as e:
         print(f"HARNESS-ERROR property={args.pid}: {e}")
         return 2
